@@ -807,7 +807,19 @@ impl PeerHandler {
             .ok_or(Error::PieceBuffMissing)
             .expect("Saving to file: piece data not exist after validation");
         let name = utils::hash_to_string(&piece_rx.hash) + ".piece";
-        match fs::write(name, &piece_rx.buff).await {
+        // Piece may be already owned (end game duplicate) and in use: write aside, then replace
+        // at once, so file under its final name is never truncated or half written
+        let addr: String = self
+            .connection
+            .addr
+            .chars()
+            .map(|c| if c.is_ascii_alphanumeric() { c } else { '_' })
+            .collect();
+        let tmp_name = format!("{}.{}.tmp", name, addr);
+        if fs::write(&tmp_name, &piece_rx.buff).await.is_err() {
+            return Err(Error::FileCannotWrite);
+        }
+        match fs::rename(&tmp_name, &name).await {
             Ok(()) => Ok(()),
             Err(_) => Err(Error::FileCannotWrite),
         }
